@@ -130,6 +130,21 @@ Theorem C40_restrict_fourth_order :
 Proof. exact C40_restrict_fourth_order_l. Qed.
 Print Assumptions C40_restrict_fourth_order.
 
+(* FOURTH-ORDER TENSOR WITH other_fields (any number type).  For a tensor built with extra
+   constitutive fields: copy returns an equal tensor, and restrict_to_cells selects the
+   requested cells of mu, lmbda, EVERY extra field and the values (basis matrices kept). *)
+Theorem C40_other_fields_copy_restrict :
+  forall (T : Type) (ops : numops T) (mu la : list T) (mats : list (list (list T)))
+         (fields : list (list T)) (t : @tensor4x T) (cells : list Z),
+    fourth_order_x ops mu la mats fields = Ok t ->
+    copy4x ops t = Ok t /\
+    (forall t', restrict4x ops t cells = Ok t' ->
+       take_cells mu cells = Ok (x_mu t') /\ take_cells la cells = Ok (x_lmbda t') /\
+       Forall2 (fun f f' => take_cells f cells = Ok f') fields (x_fields t') /\
+       take_cells (x_values t) cells = Ok (x_values t') /\ x_mats t' = mats).
+Proof. exact other_fields_l. Qed.
+Print Assumptions C40_other_fields_copy_restrict.
+
 (* Non-vacuity over the ring of integers: a constructed anisotropic tensor, an orthogonal
    matrix (quarter turn about z), its rotation, a restriction with a negative index. *)
 Example C40_nonvacuous :
